@@ -22,7 +22,7 @@ def run_order(d, gfa_text, chromosome_order, by_chrom, with_sequence=False, fnam
         core.write_text(path, gfa_text)
     outdir = os.path.join(d, sub)
     if via == "cli":
-        argv = ["order_gfa", "--chromosome_order", chromosome_order, "--outdir", outdir]
+        argv = ["order_gfa"] + (["--chromosome_order", chromosome_order] if chromosome_order else []) + ["--outdir", outdir]
         argv += (["--by-chrom"] if by_chrom else []) + (["--with-sequence"] if with_sequence else []) + [path]
         res = core.cli(argv)
     else:
